@@ -52,7 +52,9 @@ Next ==
   /\ l <= Len(Rec)
   /\ l' = l + 1
   /\ LET e == Rec[l] IN
-     IF e.ev = "reset" THEN
+     IF e.ev = "reset_after_crash" THEN      \* the process died in this run (reported by the orchestrator)
+        /\ failed' = TRUE /\ UNCHANGED <<st, viol>>
+     ELSE IF e.ev = "reset" THEN
         /\ st' = [kind |-> e.kind, s |-> e.stream, max |-> e.max, limit |-> e.limit, cs |-> << >>,
                   recs |-> << >>, lso |-> 0, live0 |-> e.live, chunks0 |-> e.chunks]
         /\ failed' = FALSE /\ UNCHANGED viol
